@@ -80,6 +80,11 @@ def generate(rng, tier):
                                     # the channel object is copied in between (frameworks copy or pickle what they are handed);
                                     # the copy is thrown away
                                     'copied': rng.random() < 0.15})
+    # walking through a channel value by value, in order
+    scan = [p for p, ch in w.chans.items() if 4 <= len(ch.prov) and 0 < ch.count <= 80 and ch.type is not None]
+    if scan and rng.random() < 0.15:
+        p = rng.choice(scan)
+        out += [{'op': 'index', 'ch': p, 'i': i, 'scan': True} for i in range(w.chans[p].count)]
     cut = None
     last = w.segs[-1]
     if (last.layout != 'daqmx' and last.end - last.data_pos > 1 and not spec['segments'][-1].get('short_last')
@@ -207,7 +212,9 @@ def execute(case):
                         res.skipped_ops += 1
                         continue
                 mark = st.fs.mark()
-                op_ = {k: v for k, v in op.items() if k not in ('thread', 'copied')}
+                op_ = {k: v for k, v in op.items() if k not in ('thread', 'copied', 'scan')}
+                if op.get('scan'):
+                    res.probe('ascending-index-scan')
                 if op.get('copied'):
                     import copy
                     try:
